@@ -1,4 +1,5 @@
-From Coq Require Import Reals Lra List Bool ZArith Psatz.
+From Coq Require Import Reals Lra List Bool ZArith Psatz Lia.
+From Flocq Require Import Core.Core.
 Import ListNotations.
 Require Import SZV.Model.PwRel.
 Local Open Scope R_scope.
@@ -109,3 +110,58 @@ Qed.
 
 Lemma pwr_source_facts_hold : pwr_source_facts_ok = true.
 Proof. vm_compute. reflexivity. Qed.
+
+(* ---- the exact-value codec keeps the bound for values inside the range it was sized for, and only for those ---- *)
+Lemma cut_within_range : forall R e v, 0 < e -> e <= R -> Rabs v <= R -> Rabs (cut (keep R e) v - v) < e.
+Proof.
+  intros R e v He HeR Hv.
+  assert (HR : 0 < R) by lra.
+  assert (Hp : (0 < keep R e)%Z).
+  { unfold keep. assert (mag radix2 e <= mag radix2 R)%Z by (apply mag_le; lra). lia. }
+  destruct (Req_dec v 0) as [Z0|NZ].
+  - subst v. unfold cut. rewrite round_0 by apply valid_rnd_ZR. rewrite Rminus_0_r, Rabs_R0. exact He.
+  - unfold cut.
+    assert (P : Prec_gt_0 (keep R e)) by exact Hp.
+    apply Rlt_le_trans with (ulp radix2 (FLX_exp (keep R e)) v).
+    + apply error_lt_ulp; [apply FLX_exp_valid; exact P| apply valid_rnd_ZR | exact NZ].
+    + rewrite ulp_neq_0 by exact NZ. unfold cexp, FLX_exp, keep.
+      assert (M : (mag radix2 v <= mag radix2 R)%Z).
+      { apply mag_le_abs; [exact NZ|]. rewrite (Rabs_right R) by lra. exact Hv. }
+      apply Rle_trans with (bpow radix2 (mag radix2 e - 1)).
+      * apply bpow_le. lia.
+      * destruct (mag radix2 e) as [ee Hee]. simpl. specialize (Hee (Rgt_not_eq _ _ He)). rewrite Rabs_right in Hee by lra. lra.
+Qed.
+
+Lemma mag_of (x:R) (k:Z) : bpow radix2 (k - 1) <= Rabs x < bpow radix2 k -> mag radix2 x = k :> Z.
+Proof. intro H. apply mag_unique. exact H. Qed.
+
+(* outside the range the codec was sized for, the same cut loses more than the zero threshold's margin of e/2 over e:
+   radius 127/64, bound 33/64, a value 191/64 <= radius + 3 bounds away from the median *)
+Lemma cut_outside_range_refuted :
+  exists R e v, 0 < e /\ e <= R /\ Rabs v <= R + 3 * e /\ Rabs (cut (keep R e) v - v) > 3 / 2 * e.
+Proof.
+  exists (127 / 64), (33 / 64), (- (191 / 64)).
+  assert (MR : mag radix2 (127 / 64) = 1%Z :> Z).
+  { apply mag_of. simpl. rewrite Rabs_right by lra. lra. }
+  assert (Me : mag radix2 (33 / 64) = 0%Z :> Z).
+  { apply mag_of. simpl. rewrite Rabs_right by lra. lra. }
+  assert (Mv : mag radix2 (- (191 / 64)) = 2%Z :> Z).
+  { apply mag_of. simpl. rewrite Rabs_Ropp, Rabs_right by lra. lra. }
+  assert (K : keep (127 / 64) (33 / 64) = 2%Z). { unfold keep. rewrite MR, Me. reflexivity. }
+  assert (C : cut 2 (- (191 / 64)) = - 2).
+  { unfold cut, round, F2R, scaled_mantissa, cexp, FLX_exp. rewrite Mv. simpl.
+    replace (- (191 / 64) * 1) with (- (191 / 64)) by ring.
+    rewrite Ztrunc_opp. rewrite Ztrunc_floor by lra.
+    rewrite (Zfloor_imp 2) by (simpl; lra). simpl. lra. }
+  repeat split; try lra.
+  - rewrite Rabs_Ropp, Rabs_right by lra. lra.
+  - rewrite K, C. replace (- 2 - - (191 / 64)) with (63 / 64) by lra. rewrite Rabs_right by lra. lra.
+Qed.
+
+Lemma exact_codec_within : forall R e median x, 0 < e -> e <= R -> Rabs (x - median) <= R ->
+  Rabs (exact_codec R e median x - x) < e.
+Proof.
+  intros R e m x He HeR Hx. unfold exact_codec.
+  replace (cut (keep R e) (x - m) + m - x) with (cut (keep R e) (x - m) - (x - m)) by ring.
+  apply cut_within_range; assumption.
+Qed.
